@@ -246,6 +246,9 @@ impl<W: 'static, R: 'static, T: 'static> XGenerator<W, R, T> {
             Self::Filter(gen, func) => either_h({
                 let inner: BIter<_, _, _> = Box::new(to_native!(gen, Self)._iter(ns, rt.clone()));
                 let f = to_primitive!(func, Function);
+                // looking for the next accepted element is a search: a run of rejections is
+                // bounded by the search limit (the predicate may be native, so nothing else would)
+                let mut rejections = rt.limits.search_iter();
                 inner.filter_map(move |i| {
                     let Ok(value) = i else { return Some(i); };
                     let guard =
@@ -254,7 +257,14 @@ impl<W: 'static, R: 'static, T: 'static> XGenerator<W, R, T> {
                             Err(violation) => return Some(Err(violation)),
                         };
                     let Ok(guard) = guard else { return Some(Ok(guard)); };
-                    to_primitive!(guard, Bool).then(|| Ok(value))
+                    if *to_primitive!(guard, Bool) {
+                        rejections = rt.limits.search_iter();
+                        Some(Ok(value))
+                    } else if let Some(Err(violation)) = rejections.next() {
+                        Some(Err(violation))
+                    } else {
+                        None
+                    }
                 })
             }),
             Self::Repeat(gen) => either_i({
@@ -292,6 +302,8 @@ impl<W: 'static, R: 'static, T: 'static> XGenerator<W, R, T> {
                 let inner: BIter<_, _, _> = Box::new(to_native!(gen, Self)._iter(ns, rt.clone()));
                 let f = to_primitive!(func, Function);
                 let mut found_first = false;
+                // skipping is a search for the first accepted element, bounded by the search limit
+                let mut rejections = rt.limits.search_iter();
                 inner.filter_map(move |i| {
                     if found_first {
                         return Some(i);
@@ -304,7 +316,13 @@ impl<W: 'static, R: 'static, T: 'static> XGenerator<W, R, T> {
                         };
                     let Ok(guard) = guard else { return Some(Ok(guard)); };
                     found_first = *to_primitive!(guard, Bool);
-                    found_first.then_some(Ok(value))
+                    if found_first {
+                        Some(Ok(value))
+                    } else if let Some(Err(violation)) = rejections.next() {
+                        Some(Err(violation))
+                    } else {
+                        None
+                    }
                 })
             }),
             Self::FromSet(set) => {
